@@ -637,3 +637,208 @@ def c04_cases(rng, tier):
             cases.append("addr_set " + _st(psols))
             oracles.append(f"o_perm {n} " + " ".join(map(str, pm)) + " " + base)
     return cases, oracles
+
+
+# ---------------------------------------------------------------------------------------
+# C01: the verdict equals the reference semantics of the predicate graph
+
+def p_reader(c):
+    """non-leaf, deferred (contains a post-state read): forgets inherited memory, reads the absent key [9,9] from post-state
+    into a fresh 2-word region, pushes the region and then c:  stack = inherited ++ [2,0,c], memory = [2,0]"""
+    return [P(0), op("FREE"), P(2), op("ALOC"), op("POP"), P(9), P(9), P(2), P(1), P(0), op("PKRNG"), P(0), P(2), op("LODR"), P(c)]
+
+
+def p_fail_nonleaf():
+    return [op("POP"), op("POP"), P(0), op("RES"), op("DROP"), op("POP")]
+
+
+def ref_eval(children, kinds):
+    """Reference semantics.  kinds[v] = (kind, arg).  Returns per node (stack, mem) | None (program failed or an input missing),
+    the verdict ('ok', muts) | ('unsat', nodes) | ('err',) and the expected mutations of the solution."""
+    n = len(children)
+    parents = [[] for _ in range(n)]
+    for u in range(n):
+        for v in children[u]:
+            parents[v].append(u)
+    for v in range(n):
+        parents[v].sort()
+    memo = {}
+
+    def out(v):
+        if v in memo:
+            return memo[v]
+        s, m, bad = [], [], False
+        for u in parents[v]:
+            o = out(u)
+            if o is None:
+                bad = True
+                break
+            s, m = s + o[0], m + o[1]
+        k, a = kinds[v]
+        r = None
+        if not bad:
+            if k == "const":
+                r = (s + [a], m)
+            elif k == "constmem":
+                r = (s + [a], m + [a])
+            elif k == "reader":
+                r = (s + [2, 0, a], [2, 0])
+            elif k == "failnl":
+                r = None
+            else:
+                r = (s, m)            # a leaf: its inputs
+        memo[v] = r
+        return r
+    failed, unsat, muts = False, [], []
+    for v in range(n):
+        o = out(v)
+        k, a = kinds[v]
+        if o is None or k == "fail":
+            failed = True
+            continue
+        if children[v]:
+            continue
+        if k == "unsat" or (k == "sum" and sum(o[0]) != a):
+            unsat.append(v)
+        elif k == "report":
+            muts.append(([a], list(o[0])))
+        elif k == "reportmem":
+            muts.append(([a], list(o[1])))
+    if failed:
+        return ("err",)
+    if unsat:
+        return ("unsat", unsat)
+    return ("ok", muts)
+
+
+def kinds_programs(children, kinds):
+    progs = []
+    for v, (k, a) in enumerate(kinds):
+        progs.append({"const": lambda: p_const(a), "constmem": lambda: p_const_mem(a), "reader": lambda: p_reader(a),
+                      "failnl": p_fail_nonleaf, "fail": p_fail, "sat": p_sat, "unsat": p_unsat,
+                      "sum": lambda: p_sum_check(a), "report": lambda: p_report_stack(a), "reportmem": lambda: p_report_memory(a)}[k]())
+    return progs
+
+
+def random_kinds(rng, children, fail_rate=0.08):
+    """node programs for a graph; report keys and constants are attached to the node (they follow it through renumberings)"""
+    n = len(children)
+    has_parent = [False] * n
+    for u in range(n):
+        for v in children[u]:
+            has_parent[v] = True
+    kinds = []
+    for v in range(n):
+        if children[v]:
+            r = rng.random()
+            c = 1000 + 17 * v + rng.randrange(5)
+            kinds.append(("reader", c) if r < 0.25 else ("constmem", c) if r < 0.45 else ("failnl", 0) if r < 0.45 + fail_rate else ("const", c))
+        elif not has_parent[v]:
+            kinds.append(rng.choice([("sat", 0)] * 4 + [("unsat", 0), ("fail", 0)]) if rng.random() < 3 * fail_rate else ("sat", 0))
+        else:
+            kinds.append(rng.choice([("sum", None), ("sum", None), ("report", 5000 + v), ("report", 5000 + v), ("reportmem", 5000 + v), ("sat", 0)]
+                                    + ([("unsat", 0), ("fail", 0)] if rng.random() < 3 * fail_rate else [])))
+    # fill in the sums from the reference itself (a spoiled sum makes the leaf unsatisfied)
+    probe = ref_eval(children, [(k if k != "sum" else "sat", a) for k, a in kinds])
+    for v, (k, a) in enumerate(kinds):
+        if k == "sum":
+            # compute the inherited stack through the reference
+            tmp = list(kinds)
+            tmp[v] = ("report", -1)
+            r = ref_eval(children, [(kk if kk != "sum" else "sat", aa) for kk, aa in tmp])
+            inherited = None
+            if r[0] == "ok":
+                inherited = [val for key, val in r[1] if key == [-1]][0]
+            if not inherited:
+                kinds[v] = ("sat", 0)
+            else:
+                kinds[v] = ("sum", sum(inherited) + (1 if rng.random() < 0.1 else 0))
+    return kinds
+
+
+def fmt_muts(ms):
+    return "[" + ",".join(sorted("[" + ",".join(map(str, k)) + "]->[" + ",".join(map(str, v)) + "]" for k, v in ms)) + "]"
+
+
+def ref_expectation(verdicts):
+    """verdicts: per solution reference result -> the o_ref expectation text"""
+    if any(v[0] == "err" for v in verdicts):
+        return "err"
+    if any(v[0] == "unsat" for v in verdicts):
+        return "unsat " + ";".join(f"{i}:" + ",".join(map(str, sorted(v[1]))) for i, v in enumerate(verdicts) if v[0] == "unsat")
+    return "ok " + " ".join(fmt_muts(v[1]) for v in verdicts)
+
+
+def monotone_on_parents(children, perm):
+    n = len(children)
+    parents = [[] for _ in range(n)]
+    for u in range(n):
+        for v in children[u]:
+            parents[v].append(u)
+    for v in range(n):
+        ps = sorted(parents[v])
+        if [perm[u] for u in ps] != sorted(perm[u] for u in ps):
+            return False
+    return True
+
+
+def c01_graph_cases(rng, children, n_numberings, collect_all, n_sols):
+    """one graph with node programs, under several expressible numberings; returns (cases, oracle lines)"""
+    kinds = random_kinds(rng, children)
+    cases, oracles, same = [], [], []
+    numberings = [(list(range(len(children))), children)] if encode_valid(children) else []
+    numberings += expressible_numberings(rng, children, n_numberings)
+    seen = set()
+    for perm, ch2 in numberings:
+        if tuple(perm) in seen:
+            continue
+        seen.add(tuple(perm))
+        k2 = [None] * len(children)
+        for old, k in enumerate(kinds):
+            k2[perm[old]] = k
+        enc = encode_valid(ch2)
+        if enc is None:
+            continue
+        pred, pbytes = build_pred(enc, kinds_programs(ch2, k2))
+        sols = [(ADDR_A, ADDR_B, [], [])] + [(ADDR_C if i % 2 == 0 else ADDR_A, ADDR_B, [[i]], []) for i in range(n_sols - 1)]
+        preds = [(ADDR_A, ADDR_B, pred), (ADDR_C, ADDR_B, pred)]
+        case = check_case("twopass", collect_all, sols, preds, pbytes, [])
+        ref = ref_eval(ch2, k2)
+        # solutions of the same contract run the same programs: their reported keys collide -> the set is rejected as a duplicate
+        verdicts = [ref] * n_sols
+        dup = ref[0] == "ok" and ref[1] and sum(1 for s in sols if s[0] == ADDR_A) > 1 or (ref[0] == "ok" and ref[1] and sum(1 for s in sols if s[0] == ADDR_C) > 1)
+        exp = "err" if dup else ref_expectation(verdicts)
+        cases.append(case)
+        oracles.append("o_ref " + expect_tok(exp) + " " + case)
+        if monotone_on_parents(children, perm):
+            same.append(case)
+    if len(same) >= 2:
+        oracles.append(f"o_same {len(same)} " + " ".join(same))
+    return cases, oracles
+
+
+def c01_cases(rng, tier):
+    cases, oracles = [], []
+    graphs = [[list(c) for c in SHAPES[k]] for k in SHAPES]
+    # deferred parent with a lower index than a cached parent, chains against the numbering, joins below readers
+    graphs += [[[2], [2], []], [[2], [2], [3], []], [[3], [3], [3], [4], []], [[1, 2], [3], [3], [4], []]]
+    n_rand = 40 if tier == "quick" else 1500
+    for _ in range(n_rand):
+        graphs.append(random_dag(rng, rng.randrange(1, 8)))
+    reps = 2 if tier == "quick" else 6
+    for g in graphs:
+        for _ in range(reps):
+            c, o = c01_graph_cases(rng, g, 4, rng.random() < 0.5, rng.choice([1, 1, 2, 3]))
+            cases += c
+            oracles += o
+    # cyclic and malformed graphs: rejected, nothing evaluated (a data-output program at every node would otherwise show up)
+    pc = prog_bytes(p_const(7))
+    pr = prog_bytes(p_output_mutation([1], [2]))
+    for nodes_e, edges in (([0], [0]), ([0, 1], [1, 0]), ([0, 1, 2], [1, 2, 1]), ([0, 1, 2, EDGE_MAX], [1, 2, 0, 3]), ([2, 1], [1, 0]),
+                           ([1, 0], [1]), ([0, 3], [1]), ([5], []), ([0, 2, 1, EDGE_MAX], [1, 2, 3])):
+        nodes = [(s, sha(pr if s == EDGE_MAX else pc)) for s in nodes_e]
+        for ca in (False, True):
+            case = check_case("twopass", ca, [(ADDR_A, ADDR_B, [], [])], [(ADDR_A, ADDR_B, (nodes, edges))], [pc, pr], [])
+            cases.append(case)
+            oracles.append("o_ref " + expect_tok("invalid") + " " + case)
+    return cases, oracles
